@@ -24,7 +24,7 @@ Apply(e) ==
       [] e.ev = "ret"     -> PRet(e.id, e.op, e.res, e.ok)
       [] e.ev = "panic"   -> PPanic(e.id)
       [] e.ev = "drained" -> PDrained(e.complete, e.empty)
-      [] e.ev \in {"leak", "note", "end", "spin"} -> UNCHANGED pvars
+      [] e.ev \in {"leak", "note", "end", "spin", "step", "teardown"} -> UNCHANGED pvars
       [] OTHER            -> /\ bad' = bad \cup {"Unexplained"}
                              /\ UNCHANGED <<cfgs, pushedV, poppedV, open, used, resets>>
 
